@@ -779,6 +779,25 @@ pub fn execute(mut inst: Instance, acts: &[Act], flush: bool) -> Exec {
         }
     }
     let explicit = steps.len();
+    // Two calls with nothing changed around the block, before the flush starts
+    // to help it along: a block that spins in the situation the actions led to
+    // shows it here.
+    if ok && !ended && flush {
+        for _ in 0..2 {
+            let s = step(&mut inst, Act::Nop, None);
+            let bad = matches!(s.verdict, Verdict::Panic(_) | Verdict::Err(_));
+            let eof = matches!(s.verdict, Verdict::Eof) || runner_retires(&inst, &s);
+            steps.push(s);
+            if bad {
+                ok = false;
+                break;
+            }
+            if eof {
+                ended = true;
+                break;
+            }
+        }
+    }
     let mut completed = ended;
     if ended {
         ok = false;
